@@ -104,6 +104,8 @@ type vFD struct {
 	lazy     bool
 	msg      *vMD
 	oneof    *vOD
+	mapKey   *vFD // non-nil: map field (entry fields key = 1, value = 2)
+	mapVal   *vFD
 }
 
 func (f *vFD) Number() protoreflect.FieldNumber                   { return f.num }
@@ -111,8 +113,39 @@ func (f *vFD) Kind() protoreflect.Kind                            { return f.kin
 func (f *vFD) Cardinality() protoreflect.Cardinality              { return f.card }
 func (f *vFD) IsPacked() bool                                     { return f.packed }
 func (f *vFD) HasPresence() bool                                  { return f.presence }
-func (f *vFD) IsList() bool                                       { return f.card == protoreflect.Repeated }
-func (f *vFD) IsMap() bool                                        { return false }
+func (f *vFD) IsList() bool                                       { return f.card == protoreflect.Repeated && f.mapKey == nil }
+func (f *vFD) IsMap() bool                                        { return f.mapKey != nil }
+func (f *vFD) MapKey() protoreflect.FieldDescriptor {
+	if f.mapKey == nil {
+		return nil
+	}
+	return f.mapKey
+}
+func (f *vFD) MapValue() protoreflect.FieldDescriptor {
+	if f.mapVal == nil {
+		return nil
+	}
+	return f.mapVal
+}
+func (f *vFD) Default() protoreflect.Value {
+	switch f.kind {
+	case protoreflect.BoolKind:
+		return protoreflect.ValueOfBool(false)
+	case protoreflect.Int32Kind, protoreflect.Sint32Kind, protoreflect.Sfixed32Kind:
+		return protoreflect.ValueOfInt32(0)
+	case protoreflect.Int64Kind, protoreflect.Sint64Kind, protoreflect.Sfixed64Kind:
+		return protoreflect.ValueOfInt64(0)
+	case protoreflect.Uint32Kind, protoreflect.Fixed32Kind:
+		return protoreflect.ValueOfUint32(0)
+	case protoreflect.Uint64Kind, protoreflect.Fixed64Kind:
+		return protoreflect.ValueOfUint64(0)
+	case protoreflect.StringKind:
+		return protoreflect.ValueOfString("")
+	case protoreflect.BytesKind:
+		return protoreflect.ValueOfBytes(nil)
+	}
+	return protoreflect.Value{}
+}
 func (f *vFD) IsExtension() bool                                  { return false }
 func (f *vFD) IsWeak() bool                                       { return false }
 func (f *vFD) IsLazy() bool                                       { return f.lazy }
